@@ -383,4 +383,20 @@ theorem C13_cli_csv_output_is_the_result_table (delimArg : List Char) (p : Optio
   have := C13_csv_frontend_faithful_quoted goodDelim_comma (by decide) (by decide) table hne hok sep hsep c hc hdel hpol hcom henc false none pieces hp htext
   simpa [effHeader] using this
 
+/-- From the INVOCATION to the table: whenever the front door lets `python -m rbql … --out-format csv` run a query (`cliDoor a = .run d p`), the delimiter it was given and
+its optional policy select dialects under which the printed result reads back — `--delim , --policy quoted`, any chunking, LF / CRLF / CR — as the result table itself. -/
+theorem C13_cli_invocation_prints_the_result_table (a : CliArgs) (d : List Char) (p : CliPolicy) (hrun : cliDoor a = .run d p) (hm : a.policy ≠ some .monocolumn)
+    (table : List (List Str)) (hne : ∀ fs ∈ table, fs ≠ [])
+    (hok : ∀ fs ∈ table, ∀ f ∈ fs, FieldOk [','] f ∧ NoNL f)
+    (sep : Str) (hsep : sep = [LF] ∨ sep = [CR, LF] ∨ sep = [CR])
+    (c : RCfg) (hc : 1 ≤ c.chunk) (hcom : c.comment = none) (henc : c.enc = .none)
+    (pieces : List Str) (hp : ∀ q ∈ pieces, q ≠ []) :
+    ∃ darg, a.delim = some darg ∧ (cliDialects darg a.policy .csv).inDelim = d ∧ (cliDialects darg a.policy .csv).inPolicy = p ∧
+      (c.delim = (cliDialects darg a.policy .csv).outDelim → c.policy = (cliDialects darg a.policy .csv).outPolicy.toPolicy →
+       pieces.flatten = table.flatMap (fun fs => joinD [','] (fs.map (quoteField [','])) ++ sep) →
+       readAll c false none pieces = .ok { header := none, records := table, warnings := fieldsWarnSpec table }) := by
+  obtain ⟨darg, hd, h1, h2⟩ := C13_cli_run_dialect a d p hrun .csv hm
+  exact ⟨darg, hd, h1, h2, fun hdel hpol htext =>
+    C13_cli_csv_output_is_the_result_table darg a.policy table hne hok sep hsep c hc hdel hpol hcom henc pieces hp htext⟩
+
 end Rbql
